@@ -258,8 +258,10 @@ def run(rep, tier, seed, pa):
                 rep.violation("sampler-raises:far-positions", dict(desc, error=str(e)[:300]), "sample_from_continuum raised: %s" % (str(e)[:200],))
                 continue
             rep.case(sample={"kind": "far-positions", "units": len(us)}, nontrivial_key=repr(desc))
-            if got_anns != sorted(fanns) or any(a not in [x[0] for x in us] for a in fanns):
-                rep.violation("sample-annotators", desc, "far positions: annotators %r (with units: %r), requested %r" % (got_anns, sorted(set(x[0] for x in us)), fanns))
+            if got_anns != sorted(fanns):
+                rep.violation("sample-annotators", desc, "far positions: annotators %r, requested %r" % (got_anns, fanns))
+            if not us:
+                rep.violation("empty-sample", desc, "far positions: an empty continuum was sampled")
             if any(e - s0 < SEGMENT_PRECISION for _, s0, e, _ in us):
                 rep.violation("short-segment", desc, "far positions: a segment shorter than the precision was emitted")
             if any(l not in fcats for _, _, _, l in us):
@@ -332,7 +334,7 @@ def replay(rep, data, pa):
         except Exception as e:
             print("  sample_from_continuum raised %r" % (e,))
             return False
-        ok = list(c.annotators) == sorted(data["annotators"]) and all(len(c[a]) > 0 for a in data["annotators"]) and \
+        ok = list(c.annotators) == sorted(data["annotators"]) and c.num_units > 0 and \
             all(u.segment.end - u.segment.start >= 1e-6 and u.annotation in data["categories"] for _, u in c)
         print("  far positions: %d units, all clauses hold: %r" % (c.num_units, ok))
         return ok
